@@ -204,6 +204,14 @@ def exc_sig(prefix, exc):
 def _worker(args):
     mod_name, shard, known_sigs = args
     import importlib
+    import shutil
+    import tempfile
+    # pool workers leave through os._exit, so atexit handlers and TemporaryDirectory finalisers never run:
+    # every scratch file of a shard goes under one directory that is removed here
+    prev = (tempfile.tempdir, os.environ.get("TMPDIR"))
+    base = tempfile.mkdtemp(prefix="vshard_")
+    tempfile.tempdir = base
+    os.environ["TMPDIR"] = base
     try:
         mod = importlib.import_module(mod_name)
         col = Collector(known_sigs)
@@ -211,6 +219,13 @@ def _worker(args):
         return ("ok", col.dump())
     except BaseException:
         return ("error", f"shard {shard!r}\n" + traceback.format_exc())
+    finally:
+        tempfile.tempdir = prev[0]
+        if prev[1] is None:
+            os.environ.pop("TMPDIR", None)
+        else:
+            os.environ["TMPDIR"] = prev[1]
+        shutil.rmtree(base, ignore_errors=True)
 
 
 def run_shards(mod_name, shards, known_sigs, nproc=NPROC):
